@@ -23,7 +23,7 @@ def main():
     patch, props = os.path.abspath(args[0]), args[1:]
     scratch = tempfile.mkdtemp(prefix="svmut-", dir="/tmp")
     try:
-        subprocess.check_call(["git", "-C", "/repo", "worktree", "add", "--detach", "-f", scratch + "/repo", "HEAD"],
+        subprocess.check_call(["git", "-C", "/repo", "worktree", "add", "--detach", "-f", scratch + "/repo", os.environ.get("SEED_BASE", "HEAD")],
                               stdout=subprocess.DEVNULL, stderr=subprocess.DEVNULL)
         r = subprocess.run(["git", "-C", scratch + "/repo", "apply", patch])
         if r.returncode != 0:
